@@ -28,8 +28,9 @@ LEVEL_TEXT = ("3-6 agents share one process (as in thread mode): each has a real
 LEVEL_NOTE = ("Trusted: SimNet's per-channel FIFO model, the ledger arithmetic in this file. Route tables are symmetric "
               "(the protocol adds route(a,b) on requests and subtracts route(b,a) on answers and asserts spent >= 0; "
               "the YAML loader only produces symmetric tables). Messages are passed by reference, as the in-process "
-              "transport does. Liveness is checked as 'quiescent with done everywhere within 20000 steps'; hitting "
-              "the bound with traffic still flowing is reported as inconclusive.")
+              "transport does. Liveness is bounded: 'quiescent with done everywhere within 20000 deliveries' (the "
+              "longest of 8000 measured runs on the reference tree took 533); a run still exchanging messages at the "
+              "bound is reported as non-termination.")
 RULE = ("case = deployment + k + call order + schedule; non-trivial = >=2 computations replicated, at least one "
         "acceptance and at least one agent whose capacity cannot take every replica offered (a rejection or a tight "
         "bound); distinct by sha1(case)")
@@ -249,7 +250,12 @@ def run_case(case):
         if bound_viol:
             return Outcome(False, "%s [%s]" % (bound_viol[0], ctx), nontrivial, labels, info={"kind": "bound"})
         if net.bound_hit:
-            return Outcome(True, "", False, labels + ["inconclusive:step-bound"], info={"inconclusive": True})
+            # bounded liveness: on the reference tree the longest of 8000 measured runs took 533 deliveries; 20000
+            # deliveries with traffic still flowing is reported as non-termination
+            not_done = [a for a in names if not done[a]]
+            return Outcome(False, "still exchanging replication messages after %d deliveries (%d pending); "
+                                  "replication_done not reported by %r [%s]" % (net.step, net.pending(), not_done, ctx),
+                           nontrivial, labels, info={"kind": "no-termination"})
         if net.pending():
             return Outcome(False, "quiescent with %d undelivered messages [%s]" % (net.pending(), ctx), nontrivial,
                            labels, info={"kind": "pending"})
